@@ -220,7 +220,7 @@ def run(ctx):
     import time
     tm = ctx.extra.setdefault("timing", {})
     t0 = time.time()
-    ctx.coq_props()
+    ctx.coq_props(extra_targets=["Interp/IsolationCheck.vo"])
     tm["coq_props"] = round(time.time() - t0, 1)
     quick = ctx.tier == "quick"
     t0 = time.time()
